@@ -530,7 +530,12 @@ fn get_chan_conf<R: Read + Seek>(
     extended_profile: bool,
 ) -> Result<u8> {
     let chan_conf;
-    if freq_index == 15 {
+    if freq_index == 15 && !extended_profile {
+        // 24 bit sample rate: 7 bits are in byte_b, 17 in the next three bytes, whose
+        // low 7 bits start with the channel configuration
+        let tail = reader.read_u24::<BigEndian>()?;
+        chan_conf = ((tail >> 3) & 0x0F) as u8;
+    } else if freq_index == 15 {
         // Skip the 24 bit sample rate
         let sample_rate = reader.read_u24::<BigEndian>()?;
         chan_conf = ((sample_rate >> 4) & 0x0F) as u8;
